@@ -116,6 +116,15 @@ def run_check(prop, tier, seed, replay=None):
             inputs.append(("corpus", c["input"] if isinstance(c, dict) and "input" in c else c))
         n = getattr(prop, "total_cases", None) or _n_cases(prop, tier)
         budget = prop.time_budget[tier]
+        # the code under test is not the code the model was last validated against: search harder (a superset of the
+        # usual sample - case i is a function of the run seed and i), up to about four minutes of quick tier
+        drift, usual = common.source_drift()
+        if drift:
+            factor = 1.0
+            if tier == "quick" and not getattr(prop, "total_cases", None) and not os.environ.get("VERIF_NO_ESCALATION"):
+                factor = max(1.0, min(4.0, 240.0 / max(1.0, float(usual.get(prop.id, 60.0)))))
+                n, budget = int(n * factor), budget * factor
+            run.notes.append("source differs from the validated baseline in %s: sample x%.1f" % (", ".join(drift), factor))
         pending = []  # (inp, layer, op, impl)
         t_gen = time.time()
         i = 0
